@@ -340,12 +340,10 @@ class ElementList(MutableSequence):
             child = value
         elif isinstance(value, BaseDataType):
             child = self.create_element(name, False, reference)
-            try:
-                child.value = value
-            except Exception:
-                # the value has been refused: do not leave the empty child, just created, attached
-                self.remove(child)
-                raise
+            # create_element attaches the new child: detach it, it is put in its place below (a refused value
+            # leaves nothing behind, an accepted one replaces the addressed repetition instead of following it)
+            self.remove(child)
+            child.value = value
         else:
             raise ChildNotValid(value, child_name)
 
